@@ -16,6 +16,9 @@ CLAIMS = {
 CLAIMS["C03"] = dict(cat="proof", tech="CFG gate rule (edge-cut reachability of effect sites), effect inventory, variant tables, typestate reachability",
    text="Complete static non-interference argument for Connection::feed_impl (0.6 and 0.7): every effect (write rooted in *self, &mut self call, any callback use, non-empty ReceivePacket) is unreachable from entry once the token gate's pass edges are cut; token accessors return Some exactly for token-carrying variants; the 0.7 unauthenticated token request is dominated by its three tests and reaches only the token reply; reader hint, Token::random and acceptor-stored tokens are checked; no interior mutability in Connection. All obligations discharged = the property holds for every datagram and every reachable state.",
    note=TB + "Warnings are not application events; the caller's scratch buffer is not endpoint state; 0.6 connectionless datagrams are outside the statement. Path-insensitive except for the variant-typestate step of O3.")
+CLAIMS["C12"] = dict(cat="other", tech="CFG gate rule + store/compare expression agreement (def-use normal forms) + dominance rules",
+   text="Structural mechanisms of the multi-part receiver: writes to the receiver are behind the can_receive(tick) gate in all three message handlers; for each attribute of the transfer the stored expression and the expression later parts are compared with have the same normal form over the message fields; insert is dominated by !contains_key, completion by parts.len()==num_parts and passes finish_delta(tick); sender split uses ceil(len/MAX_SNAPSHOT_PACKSIZE) and tick-base, receiver reconstructs tick.wrapping_sub(wire).",
+   note=TB + "Exactly-once delivery over all permutations and duplications is a schedule-level property and is not decided; VecMap::values key order is assumed.")
 NA = {}
 m = {"version": 1,
      "setup_cmd": "cd /verif/engine/mirfacts && CARGO_NET_OFFLINE=true cargo build --release --offline",
